@@ -2,8 +2,8 @@
 //!
 //! Alphabet: a fixed 4-rule instruction set and ~20 program items (instructions, global / nested labels,
 //! constants, a suppressed constant, byte / word / 3-bit data, `#res`, `#align`, `#addr`, `#bank` switches) on
-//! three bank configurations (no bankdef; an 8-bit bank + a 3-bit bank placed at output bit 3; an output bank
-//! + a non-output bank). Bound: ALL item sequences of length <= 3 (quick) / <= 4 (thorough), each additionally
+//! four bank configurations (no bankdef; an 8-bit bank + a 3-bit bank placed at output bit 3; an output bank
+//! + a non-output bank; a bank at 2^64+0x20 + a non-output bank). Bound: ALL item sequences of length <= 3 (quick) / <= 4 (thorough), each additionally
 //! with every contiguous window of items moved into an included file and in two alternative renderings
 //! (indented / joined / commented lines; a non-ASCII comment line before the items).
 //! Oracle: an independent layout computed from the item sizes (cross-checked against the assembled bits and the
@@ -34,19 +34,19 @@ enum Enc {
 
 #[derive(Clone, Debug)]
 enum Tok {
-    Instr { text: String, size: u64, enc: Enc },
+    Instr { text: String, size: u128, enc: Enc },
     /// elems: (column offset inside the line text, element text, size, bits)
-    Data { text: String, elems: Vec<(usize, &'static str, u64, &'static str)> },
+    Data { text: String, elems: Vec<(usize, &'static str, u128, &'static str)> },
     Label { text: String, level: usize, name: &'static str },
-    Const { text: String, name: &'static str, value: u64, noemit: bool },
+    Const { text: String, name: &'static str, value: u128, noemit: bool },
     /// a constant whose value is not an integer (boolean / string): it cannot be listed as a number, but it still
     /// opens a scope and its nested children must be listed
     OtherConst { text: String, name: &'static str },
     /// a constant with a negative value: listed by the symbol-table formats with its sign
     NegConst { text: String, name: &'static str, value: i64 },
-    Res { text: String, n: u64 },
-    Align { text: String, n: u64 },
-    Addr { text: String, x: u64 },
+    Res { text: String, n: u128 },
+    Align { text: String, n: u128 },
+    Addr { text: String, x: u128 },
     Bank { text: String, idx: usize },
 }
 
@@ -61,9 +61,9 @@ impl Tok {
 #[derive(Clone, Debug)]
 struct BankDef {
     name: &'static str,
-    bits: u64,
-    addr: u64,
-    outp: Option<u64>,
+    bits: u128,
+    addr: u128,
+    outp: Option<u128>,
 }
 
 struct Config {
@@ -138,6 +138,23 @@ fn configs() -> Vec<Config> {
             name: "romram",
             prologue,
             banks: vec![BankDef { name: "p", bits: 8, addr: 0x8000, outp: Some(8 * 0x10) }, BankDef { name: "r", bits: 8, addr: 0x200, outp: None }],
+            initial: 0,
+            toks,
+        });
+    }
+    {
+        // a bank whose logical addresses lie beyond the machine word (addresses are unbounded integers): every
+        // address column, label value and `#addr` target carries 17 hexadecimal digits
+        const H: u128 = 0x1_0000_0000_0000_0000;
+        let mut toks = common_toks();
+        toks.push(Tok::Addr { text: "#addr 0x1_0000_0000_0000_0024".into(), x: H + 0x24 });
+        toks.push(Tok::Bank { text: "#bank h".into(), idx: 0 });
+        toks.push(Tok::Bank { text: "#bank r".into(), idx: 1 });
+        let prologue = format!("{}#bankdef h {{ #addr 0x1_0000_0000_0000_0020, #size 0x40, #outp 8 * 0x10 }}\n#bankdef r {{ #addr 0x200, #size 0x40 }}\n#bank h\n", RULES);
+        v.push(Config {
+            name: "wide",
+            prologue,
+            banks: vec![BankDef { name: "h", bits: 8, addr: H + 0x20, outp: Some(8 * 0x10) }, BankDef { name: "r", bits: 8, addr: 0x200, outp: None }],
             initial: 0,
             toks,
         });
@@ -238,9 +255,9 @@ fn render(cfg: &Config, toks: &[&Tok], window: Option<(usize, usize)>, style: u8
 
 #[derive(Clone, Debug)]
 struct ExpRow {
-    offset: Option<u64>,
-    addr: u64,
-    size: u64,
+    offset: Option<u128>,
+    addr: u128,
+    size: u128,
     bits: String,
     text: String,
     loc: Loc,
@@ -250,9 +267,9 @@ struct ExpRow {
 #[derive(Clone, Debug)]
 struct ExpSym {
     name: String,
-    value: u64,
+    value: u128,
     /// labels: (bank, bit position inside the bank)
-    label: Option<(usize, u64)>,
+    label: Option<(usize, u128)>,
     noemit: bool,
 }
 
@@ -263,7 +280,7 @@ struct Expect {
     negs: Vec<(String, i64)>,
 }
 
-fn emit(rows: &mut Vec<ExpRow>, pos: &mut [u64], cur: usize, b: &BankDef, loc: &Loc, coloff: usize, text: &str, size: u64, bits: String) -> Result<(), String> {
+fn emit(rows: &mut Vec<ExpRow>, pos: &mut [u128], cur: usize, b: &BankDef, loc: &Loc, coloff: usize, text: &str, size: u128, bits: String) -> Result<(), String> {
     let Some(outp) = b.outp else { return Err("data in a non-output bank".into()) };
     let l = Loc { file: loc.file, line0: loc.line0, col0: loc.col0 + coloff, byte0: loc.byte0 + coloff };
     rows.push(ExpRow { offset: Some(outp + pos[cur]), addr: b.addr + pos[cur] / b.bits, size, bits, text: text.to_string(), loc: l, bank: cur });
@@ -272,7 +289,7 @@ fn emit(rows: &mut Vec<ExpRow>, pos: &mut [u64], cur: usize, b: &BankDef, loc: &
 }
 
 fn model(cfg: &Config, toks: &[&Tok], locs: &[Loc]) -> Result<Expect, String> {
-    let mut pos: Vec<u64> = vec![0; cfg.banks.len()];
+    let mut pos: Vec<u128> = vec![0; cfg.banks.len()];
     let mut cur = cfg.initial;
     let mut parent0: Option<String> = None;
     let mut parent1: Option<String> = None;
@@ -597,14 +614,14 @@ type Mismatch = (&'static str, String);
 fn match_rows<E, O>(
     exp: &[E],
     obs: &[O],
-    e_off: &dyn Fn(&E) -> Option<u64>,
-    o_off: &dyn Fn(&O) -> Result<Option<u64>, String>,
+    e_off: &dyn Fn(&E) -> Option<u128>,
+    o_off: &dyn Fn(&O) -> Result<Option<u128>, String>,
     ident: &dyn Fn(&E, &O) -> bool,
     e_show: &dyn Fn(&E) -> String,
     o_show: &dyn Fn(&O) -> String,
     rest: &dyn Fn(&E, &O) -> Result<(), Mismatch>,
 ) -> Result<(), Mismatch> {
-    let mut es: Vec<(u64, &E)> = vec![];
+    let mut es: Vec<(u128, &E)> = vec![];
     let mut en: Vec<&E> = vec![];
     for e in exp {
         match e_off(e) {
@@ -613,7 +630,7 @@ fn match_rows<E, O>(
         }
     }
     es.sort_by_key(|x| x.0); // stable
-    let mut os: Vec<(u64, &O)> = vec![];
+    let mut os: Vec<(u128, &O)> = vec![];
     let mut on: Vec<&O> = vec![];
     for o in obs {
         match o_off(o).map_err(|m| ("outp", format!("{} in row {}", m, o_show(o))))? {
@@ -684,7 +701,7 @@ fn match_rows<E, O>(
     Ok(())
 }
 
-fn offset_of(outp: Option<(u64, u64)>, bits_per_group: u64) -> Result<Option<u64>, String> {
+fn offset_of(outp: Option<(u128, u128)>, bits_per_group: u128) -> Result<Option<u128>, String> {
     match outp {
         None => Ok(None),
         Some((g, b)) => {
@@ -699,7 +716,7 @@ fn offset_of(outp: Option<(u64, u64)>, bits_per_group: u64) -> Result<Option<u64
 
 fn check_rows(rows: &[p::Row], exp: &Expect, bits: &str, base: usize, group: usize, alpha: &p::Alphabet) -> Result<(), Mismatch> {
     let bpd = log2(base);
-    let bpg = (bpd * group) as u64;
+    let bpg = (bpd * group) as u128;
     match_rows(
         &exp.rows,
         rows,
@@ -764,7 +781,7 @@ fn check_addrspan(rows: &[p::AddrRow], exp: &Expect, c: &Calib) -> Result<(), Mi
     )
 }
 
-fn check_symbols(list: &[(String, u64)], exp: &Expect) -> Result<(), Mismatch> {
+fn check_symbols(list: &[(String, u128)], exp: &Expect) -> Result<(), Mismatch> {
     let mut used = vec![false; list.len()];
     for s in exp.syms.iter().filter(|s| !s.noemit) {
         match (0..list.len()).find(|&q| !used[q] && list[q].0 == s.name) {
@@ -793,7 +810,7 @@ fn has_small_label(cfg: &Config, exp: &Expect) -> bool {
     })
 }
 
-fn check_mlb(lines: &[(String, u64, String)], cfg: &Config, exp: &Expect) -> Result<(), Mismatch> {
+fn check_mlb(lines: &[(String, u128, String)], cfg: &Config, exp: &Expect) -> Result<(), Mismatch> {
     let norm = |n: &str| n.replace('.', "_");
     let mut used = vec![false; lines.len()];
     for s in &exp.syms {
@@ -811,7 +828,7 @@ fn check_mlb(lines: &[(String, u64, String)], cfg: &Config, exp: &Expect) -> Res
         };
         let bank = &cfg.banks[b];
         // what the layout says
-        let want: Option<(&str, u64)> = match bank.outp {
+        let want: Option<(&str, u128)> = match bank.outp {
             None => Some(("R", s.value)),
             Some(o) => {
                 let off = o + pos;
@@ -948,7 +965,7 @@ fn judge_variant(env: &Env, v: &Variant, fmt_idx: &[usize], l: &mut Local) {
     }
     {
         // output order differs from source order
-        let offs: Vec<u64> = exp.rows.iter().filter_map(|r| r.offset).collect();
+        let offs: Vec<u128> = exp.rows.iter().filter_map(|r| r.offset).collect();
         if offs.windows(2).any(|w| w[1] < w[0]) {
             l.class("output-order-differs-from-source-order");
         }
@@ -1095,7 +1112,7 @@ pub fn run(ctx: &Ctx) -> Report {
         let k = cfg.toks.len() as u64;
         let n = seq_count(k, maxlen);
         per_cfg.insert(cfg.name.to_string(), json!({"items": cfg.toks.iter().map(|t| t.text()).collect::<Vec<_>>(), "sequences": n,
-                "banks": cfg.banks.iter().map(|b| json!({"name": b.name, "bits": b.bits, "addr": b.addr, "outp_bits": b.outp})).collect::<Vec<_>>()}));
+                "banks": cfg.banks.iter().map(|b| json!({"name": b.name, "bits": b.bits, "addr": format!("{:#x}", b.addr), "outp_bits": b.outp})).collect::<Vec<_>>()}));
         let local = par_run(n, |i, l| {
             let seq = seq_decode(i, k, maxlen);
             judge_seq(&env, ci, seq, l);
